@@ -343,14 +343,69 @@ func init() {
 			st.States, st.Transitions, st.Nontrivial = st.Execs*6, st.Execs*6, st.Execs
 			st.NOutcomes = int(st.Execs)
 		}
+		// the origin answers in one of the encodings pike decodes itself (small bodies, kept as they are decoded)
+		if c.Want("pairs-encoded-origin") {
+			st := c.Stat("pairs-encoded-origin", "enumeration")
+			st.Bounds = "origin encoding {lz4, zst, snz, gzip, br} x every ordered pair of 8 keys, sequence A B A B A, limit 2; clients accept nothing"
+			e := getEnv(cfg, "basic")
+			var idx int64
+			keys := []c06Key{U[0], U[2], U[3], U[4], U[8], U[10], U[16], U[24]}
+			for _, enc := range []string{"lz4", "zst", "snz", "gzip", "br"} {
+				for i, a := range keys {
+					for j, b := range keys {
+						if i == j {
+							continue
+						}
+						idx++
+						if !c.Mine(idx) {
+							continue
+						}
+						freshCaches(cfg)
+						oneShard("c1", 2, nil)
+						e.Respond = func(oc *env.OriginCall) env.OriginResp {
+							r := env.Cacheable(oc, 100, "p")
+							if oc.Method != "HEAD" {
+								r.Body = refEncode(enc, r.Body)
+							}
+							r.Header.Set("Content-Encoding", enc)
+							return r
+						}
+						e.Events()
+						for n, k := range []c06Key{a, b, a, b, a} {
+							e.Do(env.Req{Method: k.M, Host: k.H, URI: k.U, Rid: fmt.Sprintf("r%d", n)})
+						}
+						an := analyze(e.Events())
+						st.Execs++
+						st.States += 5
+						st.Transitions += 5
+						st.Nontrivial++
+						v := an.selfCheck()
+						if v == nil {
+							v = an.labelTruth()
+						}
+						if v != nil {
+							c.Violation("pairs-encoded-origin", v.Sig, fmt.Sprintf("origin encoding %s, keys %v and %v: %s", enc, a, b, v.Msg), nil, map[string]interface{}{"a": a, "b": b, "encoding": enc}, nil)
+						}
+					}
+				}
+			}
+			st.NOutcomes = int(st.Execs)
+		}
 		// URIs that contain another key's URI (after "://", after "?u=", dot segments, parameters): raw request-URIs are the key
 		if c.Want("embedded-uris") {
 			st := c.Stat("embedded-uris", "enumeration")
-			uris := []string{"/x", "/xy", "/l?next=http://a.com/x", "/l?next=http://a.com/xy", "/l?next=https://b.com/x", "/x?u=/xy", "/x;p=1", "/./x", "/a/../x", "/x/.."}
-			st.Bounds = fmt.Sprintf("every ordered pair of %d request-URIs one of which embeds the other, sequence A B A B A, limits 1 and 2", len(uris))
-			e := getEnv(cfg, "basic")
+			uris := []string{"/x", "/xy", "/l?next=http://a.com/x", "/l?next=http://a.com/xy", "/l?next=https://b.com/x", "/x?u=/xy", "/x;p=1", "/./x", "/a/../x", "/x/..", "/x%2Fy", "/x/y", "/x%2fy"}
+			st.Bounds = fmt.Sprintf("every ordered pair of %d request-URIs one of which embeds the other (incl. an escaped slash), sequence A B A B A, limits 1 and 2, behind a plain location and behind one with a non-matching rewrite rule", len(uris))
+			// (also behind a location that has a rewrite rule none of these paths matches)
+			rcfg := env.BasicConfig(config.CacheConfig{})
+			rcfg.Locations[0].Rewrites = []string{"/api/*:/$1"}
 			var idx int64
-			for _, limit := range []int{1, 2} {
+			for _, limit := range []int{1, 2, -1, -2} {
+				ucfg, ukey := cfg, "basic"
+				if limit < 0 {
+					ucfg, ukey, limit = rcfg, "c06-rewrite", -limit
+				}
+				e := getEnv(ucfg, ukey)
 				for i, a := range uris {
 					for j, b := range uris {
 						if i == j {
@@ -360,7 +415,7 @@ func init() {
 						if !c.Mine(idx) {
 							continue
 						}
-						freshCaches(cfg)
+						freshCaches(ucfg)
 						oneShard("c1", limit, nil)
 						e.Respond = func(oc *env.OriginCall) env.OriginResp { return env.Cacheable(oc, 100, "p") }
 						e.Events()
